@@ -769,6 +769,9 @@ class Inliner:
                         for e, x in zip(tg.elts, v.elts):
                             env[e.id] = x
                     else:
+                        # (a, b = f(..): written out as f(..)[0], f(..)[1] only when evaluating f(..) again gives an interchangeable value)
+                        if not (norm.is_reference(v) or norm.is_scalar(v)):
+                            return None
                         for i, e in enumerate(tg.elts):
                             env[e.id] = ast.Subscript(value=copy.deepcopy(v), slice=ast.Constant(i), ctx=ast.Load())
                     continue
@@ -1319,6 +1322,17 @@ class _ExprNorm(ast.NodeTransformer):
             if not (la.vararg or la.kwarg or la.kwonlyargs or la.defaults or la.posonlyargs) and len(la.args) == len(node.args) \
                     and all(isinstance(a, ast.Constant) or norm._attr_chain(a) is not None or norm.is_reference(a) for a in node.args):
                 return norm._Subst({p_.arg: a for p_, a in zip(la.args, node.args)}).visit(copy.deepcopy(node.func.body))
+            # one computed argument whose parameter is read once, before anything else in the body is called: evaluated there instead
+            if not (la.vararg or la.kwarg or la.kwonlyargs or la.defaults or la.posonlyargs) and len(la.args) == len(node.args):
+                hard = [(p_.arg, a) for p_, a in zip(la.args, node.args) if not (isinstance(a, ast.Constant) or norm._attr_chain(a) is not None or norm.is_reference(a))]
+                if len(hard) == 1:
+                    pn = hard[0][0]
+                    order = list(_completion_order(node.func.body))
+                    occ = [i for i, n in enumerate(order) if isinstance(n, ast.Name) and n.id == pn]
+                    if len(occ) == 1 and not any(isinstance(n, (ast.Call, ast.Lambda, ast.GeneratorExp, ast.ListComp, ast.SetComp, ast.DictComp, ast.IfExp, ast.BoolOp))
+                                                 for n in order[:occ[0]]) and not any(isinstance(n, (ast.Lambda, ast.GeneratorExp, ast.ListComp, ast.SetComp, ast.DictComp, ast.IfExp, ast.BoolOp))
+                                                                                        for n in ast.walk(node.func.body)):
+                        return norm._Subst({p_.arg: a for p_, a in zip(la.args, node.args)}).visit(copy.deepcopy(node.func.body))
         # dict(((k1, v1), (k2, v2))) -> {k1: v1, k2: v2}
         if f == "dict" and len(node.args) == 1 and not node.keywords and isinstance(node.args[0], (ast.Tuple, ast.List)) \
                 and all(isinstance(e, (ast.Tuple, ast.List)) and len(e.elts) == 2 and not any(isinstance(x, ast.Starred) for x in e.elts) for e in node.args[0].elts):
@@ -1689,6 +1703,16 @@ class _BoundVars(ast.NodeTransformer):
         node.body = self.visit(norm._Rename(ren).visit(node.body))
         self.depth -= len(ren)
         return node
+
+
+def _completion_order(e):
+    """sub-expressions in the order their evaluation completes (operands before the operation, arguments left to right)"""
+    for ch in ast.iter_child_nodes(e):
+        if isinstance(ch, ast.expr):
+            yield from _completion_order(ch)
+        elif isinstance(ch, ast.keyword):
+            yield from _completion_order(ch.value)
+    yield e
 
 
 class _FoldConst(ast.NodeTransformer):
